@@ -4,6 +4,7 @@ package main
 // with panic capture, and the decode-tree invariant walker.
 
 import (
+	"bytes"
 	"context"
 	"fmt"
 	"io"
@@ -394,7 +395,7 @@ type treeIssue struct {
 }
 
 type treeStats struct {
-	Values, Compounds, NestedRoots, Errors, Unaligned, Gaps, Synthetic int
+	Values, Compounds, NestedRoots, Errors, Unaligned, Gaps, Synthetic, ViewReaders int
 }
 
 func bitLen(r bitio.ReaderAtSeeker) (int64, error) {
@@ -503,7 +504,22 @@ func checkTree(root *decode.Value, st *treeStats) []treeIssue {
 				add("I1:range-outside-buffer", "%s: range %s (stop %d) outside its buffer of %d bits", p(), v.Range, v.Range.Stop(), rl)
 			}
 			if bufRoot != nil && v.RootReader != bufRoot.RootReader {
-				add("I1:root-reader-differs-from-buffer-root", "%s: RootReader is not the reader of its buffer root %s", p(), valuePathStr(bufRoot))
+				// Values decoded inside FramedFn/LimitedFn/RangeFn of a nested root keep the range *view* of
+				// that root's buffer as RootReader (a view from bit 0, so coordinates agree). What the
+				// property asks is that the range addresses the same bits in the buffer the value was decoded
+				// from: compare content through both readers (identity was demanded first: false alarm, DESIGN 8.4).
+				st.ViewReaders++
+				if _, isC := v.V.(*decode.Compound); !isC && v.Range.Len > 0 && v.Range.Stop() <= rl {
+					n := v.Range.Len
+					if n > 1<<19 {
+						n = 1 << 19
+					}
+					a, errA := readBitsOf(v.RootReader, v.Range.Start, n)
+					b, errB := readBitsOf(bufRoot.RootReader, v.Range.Start, n)
+					if errA != nil || errB != nil || !bytes.Equal(a, b) {
+						add("I1:root-reader-differs-from-buffer-root", "%s: range %s read through the value's RootReader differs from the same range of its buffer root %s (errs %v, %v)", p(), v.Range, valuePathStr(bufRoot), errA, errB)
+					}
+				}
 			}
 		}
 		if v.Range.Start%8 != 0 || v.Range.Len%8 != 0 {
